@@ -6,6 +6,9 @@ package main
 //
 //	upd <key> <val> <w>          Update(key, val, w)                       -> ok | <err>
 //	updel <key>                  Update(key, nil, 0)  (delete)             -> ok | notfound | <err>
+//	updel0 <key>                 Update(key, []byte{}, 0): the same delete, "no value" as an empty NON-NIL slice
+//	updbad <nil|empty|hex> <v|-> <w>   Update with a key that is not 32 bytes        -> invalidkey
+//	delbad <nil|empty|hex>       Delete with a nil / empty / short key               -> notfound
 //	del <key>                    Delete(key)                               -> ok <weight> | notfound | <err>
 //	commit <lvl>                 Commit(lvl) + batch.Commit(true)          -> ok r=<root> w=<weight> <storage ops>
 //	gc                           DeleteNodes()                             -> ok <storage ops>
@@ -95,10 +98,14 @@ type wrun struct {
 	muts        int
 	commits     int
 
-	f2seen   bool // two live keys carried byte-equal (value, weight) at some time
-	cp       *wcheckpoint
-	lastPuts map[string]bool // keys written by the most recent commit batch since the checkpoint
-	durable  []wdurable
+	f2seen    bool     // two live keys carried byte-equal (value, weight) at some time
+	f2Pend    []*f2rec // … and one of two such twins was deleted / overwritten (one record per removal)
+	f2Armed   bool     // two passes ran: the shared node is gone
+	f2Damaged bool     // a covered F2 failure was recorded: the storage is damaged from here on
+	f2Wrecked bool     // … and a mutation of the live trie failed on the missing node: the trie itself is not judged any more
+	cp        *wcheckpoint
+	lastPuts  map[string]bool // keys written by the most recent commit batch since the checkpoint
+	durable   []wdurable
 
 	slots map[int]*wslot
 
@@ -119,6 +126,11 @@ type wrun struct {
 	changed          map[string]bool // keys changed since the last commit / reload / rollback
 }
 
+type f2rec struct {
+	committed bool
+	gcs       int
+}
+
 type wdurable struct {
 	n       int // log length after which this state is the last durably committed one
 	root    []byte
@@ -133,7 +145,66 @@ func newWrun(ops []string) *wrun {
 }
 
 func (x *wrun) fail(i int, f string, a ...interface{}) {
-	x.failIn(x.cover, i, f, a...)
+	x.failIn("", i, f, a...)
+}
+
+// ---- matcher of finding C11-F2 (equal content under two keys shares one storage entry; GC has no reference counts) ----
+//
+// The finding's fingerprint, not its precondition: a failure is covered only if
+//   - it is of the not-found class (a node is missing from storage): "notfound" / "kvnotfound" in its text,
+//   - it comes from a read that resolves nodes — the reopen oracle after a commit / GC pass / rollback, the crash
+//     enumeration, owner / owners / ownersat, an honest proof — or, once such a failure has been recorded (the storage is
+//     damaged from there on), from any later operation,
+//   - and the history has removed the shared node: a key whose (value, weight) another live key also carries was deleted or
+//     overwritten, that change was committed, and two GC passes ran afterwards.
+//
+// Everything else in such a case — Weight, Root, wrong owner, mirror mismatch, any failure before the second pass — is
+// judged like in any other case (until a mutation of the live trie itself fails on the missing node).
+var f2Sites = []string{"reopened trie cannot produce the proof", "live trie cannot answer the owner", "owner of block", "honest proof of block",
+	"proof of block", "checkpoint not intact", "crash after storage operation"}
+
+func (x *wrun) f2Covers(msg string) bool {
+	if x.f2Wrecked {
+		return true
+	}
+	if !x.f2Armed || !(strings.Contains(msg, "notfound")) {
+		return false
+	}
+	if x.f2Damaged {
+		// a MUTATION of the live trie that fails on the missing node may have been applied halfway (an operation error of
+		// the storage is outside the properties' quantifier, notes/C11.md): from here on the in-memory trie is not judged
+		for _, s := range []string{"update failed", "delete of a live key returned", "commit failed", "update on the source trie failed", "delete on the source trie"} {
+			if strings.Contains(msg, s) {
+				x.f2Wrecked = true
+			}
+		}
+		return true
+	}
+	for _, s := range f2Sites {
+		if strings.Contains(msg, s) {
+			return true
+		}
+	}
+	return false
+}
+
+// f2Note follows the history: `before` / `after` = the entry of `key` before / after a content change
+func (x *wrun) f2Change(key string, before went, had bool) {
+	if !had {
+		return
+	}
+	now, still := x.live[key]
+	if still && now.w == before.w && bytes.Equal(now.val, before.val) {
+		return
+	}
+	for k, e := range x.live {
+		if k != key && e.w == before.w && bytes.Equal(e.val, before.val) {
+			// one of two twins is gone: its nodes are queued although the other twin still needs them
+			x.f2Pend = append(x.f2Pend, &f2rec{})
+			x.tags["finding:F2-twin-removed"] = true
+			return
+		}
+	}
 }
 
 // failIn records an oracle failure; cover is the finding whose matcher accepts it ("" = none).
@@ -142,6 +213,10 @@ func (x *wrun) failIn(cover string, i int, f string, a ...interface{}) {
 	if x.quiet {
 		x.held = append(x.held, msg)
 		return
+	}
+	if cover == "" && x.f2Covers(msg) {
+		cover = findF2
+		x.f2Damaged = true
 	}
 	if cover != "" {
 		msg = "[" + cover + "] " + msg
@@ -180,9 +255,6 @@ func (x *wrun) noteContent() {
 	if !x.f2seen && x.live.hasEqualPair() {
 		x.f2seen = true
 		x.tags["finding:F2-condition"] = true
-		if x.cover == "" {
-			x.cover = findF2
-		}
 	}
 }
 
@@ -298,6 +370,7 @@ func (x *wrun) step(i int, f []string) string {
 		// root is not a branch (the walk is sequential then, leaves first): that case is held to the full oracle.
 		lenient = "commit-retry-after-a-failed-batch-put-loses-the-nodes-saved-before-it"
 	}
+	logBefore := x.st.logLen()
 	x.retrying = true
 	x.quiet, x.held = lenient != "", nil
 	out2 := x.step1(i, f)
@@ -306,9 +379,26 @@ func (x *wrun) step(i int, f []string) string {
 		x.fullCheck(i)
 	}
 	x.quiet = false
+	if out2 == "panic" {
+		x.failMsg(fmt.Sprintf("op %d (%s): the retry after an injected %s failure panicked", i, wmClip(x.ops[i], 120), x.faultClass))
+	}
 	if len(x.held) > 0 {
+		// the observation's fingerprint: nodes the failed attempt had saved are missing from storage — the reopen oracle of the
+		// retried commit cannot resolve a block (not-found class). Anything else the retry got wrong is a failure.
+		seen := false
+		for _, m := range x.held {
+			if strings.Contains(m, "notfound") && (strings.Contains(m, "after the commit batch: reopened trie cannot produce the proof") ||
+				strings.Contains(m, "the live trie answers")) {
+				seen = true
+			} else {
+				x.failMsg(m)
+			}
+		}
 		x.held = nil
-		x.observe(lenient)
+		if seen {
+			x.crashEnumerationUpTo(i, logBefore) // the states committed before the failed commit must still be recoverable
+			x.observe(lenient)
+		}
 	}
 	if x.abandoned {
 		return "fault " + out + " retry " + out2 + " (observation)"
@@ -317,12 +407,14 @@ func (x *wrun) step(i int, f []string) string {
 }
 
 func (x *wrun) failMsg(msg string) {
-	x.uncov = x.uncov || x.cover == ""
-	if x.cover != "" {
-		msg = "[" + x.cover + "] " + msg
+	if x.f2Covers(msg) {
+		x.f2Damaged = true
+		msg = "[" + findF2 + "] " + msg
 		if x.res.Finding == "" {
-			x.res.Finding = x.cover
+			x.res.Finding = findF2
 		}
+	} else {
+		x.uncov = true
 	}
 	if len(x.res.Fails) < 12 {
 		x.res.Fails = append(x.res.Fails, msg)
@@ -352,7 +444,11 @@ func (x *wrun) fullCheck(i int) {
 			return string(key)
 		})
 		if out != want {
-			x.fail(i, "owner of block %d is %x, want %x", b, out, want)
+			if len(out) != 32 {
+				x.fail(i, "owner of block %d: the live trie answers %q, want %x", b, out, want)
+			} else {
+				x.fail(i, "owner of block %d is %x, want %x", b, out, want)
+			}
 			return
 		}
 	}
@@ -372,7 +468,12 @@ func (x *wrun) step1(i int, f []string) string {
 					x.tags["rewrite-same"] = true
 				}
 			}
+			before, had := x.live[string(key)]
+			if had && bytes.Equal(before.val, val) {
+				w = before.w // a same-value rewrite is a no-op: the entry keeps its weight (trie.go insert, bytes.Equal case)
+			}
 			x.live[string(key)] = went{val, w}
+			x.f2Change(string(key), before, had)
 			x.noteChanged(string(key))
 			x.dirty = true
 			x.muts++
@@ -380,12 +481,61 @@ func (x *wrun) step1(i int, f []string) string {
 		}
 		x.checkWeight(i)
 		return out
-	case "updel", "del":
+	case "updbad":
+		// Update with a key that is not 32 bytes: nil, empty, 31 / 33 bytes — ErrInvalidKey, nothing changes
+		var key []byte
+		switch f[1] {
+		case "nil":
+		case "empty":
+			key = []byte{}
+		default:
+			key = unhx(f[1])
+		}
+		var val []byte
+		if f[2] != "-" {
+			val = unhx(f[2])
+		}
+		out := guard(func() string { return werr(x.t.Update(key, val, u64(f[3]))) })
+		if out != "invalidkey" {
+			x.fail(i, "Update with a key of %d bytes returned %q, want invalidkey", len(key), out)
+		}
+		x.checkWeight(i)
+		x.tags["update-bad-key"] = true
+		return out
+	case "delbad":
+		// Delete with a nil / empty / too short key: not found, nothing changes
+		var key []byte
+		switch f[1] {
+		case "nil":
+		case "empty":
+			key = []byte{}
+		default:
+			key = unhx(f[1])
+		}
+		out := guard(func() string {
+			ch, err := x.t.Delete(key)
+			if err != nil {
+				return werr(err)
+			}
+			return fmt.Sprintf("ok %d", ch)
+		})
+		if out != "notfound" {
+			x.fail(i, "Delete with a key of %d bytes returned %q, want notfound", len(key), out)
+		}
+		x.checkWeight(i)
+		x.tags["delete-bad-key"] = true
+		return out
+	case "updel", "updel0", "del":
 		key := unhx(f[1])
 		old, present := x.live[string(key)]
 		out := guard(func() string {
 			if f[0] == "updel" {
 				return werr(x.t.Update(append([]byte(nil), key...), nil, 0))
+			}
+			if f[0] == "updel0" {
+				// "no value" spelled as an empty NON-NIL slice: the same delete
+				x.tags["delete-by-empty-non-nil-value"] = true
+				return werr(x.t.Update(append([]byte(nil), key...), []byte{}, 0))
 			}
 			ch, err := x.t.Delete(append([]byte(nil), key...))
 			if err != nil {
@@ -409,6 +559,7 @@ func (x *wrun) step1(i int, f []string) string {
 			}
 			if strings.HasPrefix(out, "ok") {
 				delete(x.live, string(key))
+				x.f2Change(string(key), old, true)
 				x.noteChanged(string(key))
 				x.dirty = true
 				x.muts++
@@ -465,18 +616,26 @@ func (x *wrun) step1(i int, f []string) string {
 		}
 		x.commits++
 		x.tags[fmt.Sprintf("commit-lvl:%d", lvl)] = true
-		x.lastPuts = map[string]bool{}
+		// keys written by the last commit that wrote anything since the checkpoint: a commit with nothing to write (a periodic
+		// flush) keeps the list — Rollback still has to remove the real commit's nodes
+		puts := map[string]bool{}
 		for _, e := range es {
 			for _, o := range e.ops {
 				if !o.del {
-					x.lastPuts[o.k] = true
+					puts[o.k] = true
 				}
 			}
+		}
+		if len(puts) > 0 {
+			x.lastPuts = puts
 		}
 		root := guard2(func() []byte { return x.t.Root() })
 		x.croot, x.cweight = root, x.t.Weight()
 		x.committed = x.live.clone()
 		x.changed = nil
+		for _, p := range x.f2Pend {
+			p.committed = true
+		}
 		if x.st.fired() == x.fired0 && len(es) > 0 && len(es[0].ops) > 0 {
 			x.commitReadFailed = false // a later commit that wrote something replaced the list
 		}
@@ -498,6 +657,14 @@ func (x *wrun) step1(i int, f []string) string {
 			return out
 		}
 		x.tags["gc"] = true
+		for _, p := range x.f2Pend {
+			if p.committed {
+				if p.gcs++; p.gcs >= 2 && !x.f2Armed {
+					x.f2Armed = true // the second pass after the commit deleted what the removed twin had queued: the shared node
+					x.tags["finding:F2-armed"] = true
+				}
+			}
+		}
 		if x.dirty {
 			x.tags["gc-while-dirty"] = true // (the defect fixed by a54b110: such a pass could delete nodes of the committed root)
 		}
@@ -513,6 +680,7 @@ func (x *wrun) step1(i int, f []string) string {
 		x.t = openTrie(x.st, x.croot, x.cweight)
 		x.live = x.committed.clone()
 		x.changed = nil
+		x.f2Pend = nil // the queues are gone with the old trie object
 		x.dirty, x.hashedDirty = false, false
 		x.cp = nil
 		x.tags["reload"] = true
@@ -638,6 +806,9 @@ func (x *wrun) step1(i int, f []string) string {
 			x.t = wmpt.New(x.t.CopyRoot(lvl), x.st)
 			return "ok"
 		})
+		if out != "ok" {
+			x.fail(i, "New(CopyRoot(%d), storage) failed: %s", lvl, out)
+		}
 		x.live = x.committed.clone()
 		x.changed = nil
 		x.dirty, x.hashedDirty = false, false
@@ -666,6 +837,9 @@ func (x *wrun) step1(i int, f []string) string {
 			x.cp = cp
 			return "ok"
 		})
+		if out != "ok" {
+			x.fail(i, "%s failed: %s", f[0], out)
+		}
 		x.lastPuts = map[string]bool{}
 		if x.dirty {
 			x.tags["saveroot-while-dirty"] = true
@@ -717,7 +891,7 @@ func (x *wrun) step1(i int, f []string) string {
 			x.fail(i, "source trie shows %q, its content has %q", src, want)
 		}
 		return out
-	case "mupd", "mdel", "mupdel":
+	case "mupd", "mdel", "mupdel", "mupdel0":
 		if x.part == nil {
 			return "skip"
 		}
@@ -776,7 +950,7 @@ func (x *wrun) opProof(i int, b uint64, slot int) string {
 func (x *wrun) opRollback(i int, kind string) string {
 	cp := x.cp
 	from := x.st.logLen()
-	cover := x.cover
+	cover := ""
 	for k := range x.lastPuts {
 		if cp.nodes[k] {
 			// the commit being rolled back re-wrote a node whose hash belongs to the checkpoint (the defect fixed by b5c797f)
@@ -831,11 +1005,9 @@ func (x *wrun) opRollback(i int, kind string) string {
 		sort.Strings(left)
 		x.failIn(cover, i, "%d node(s) created by the rolled-back commit only are still in storage, e.g. %x", len(left), left[0])
 	}
-	if cover != "" && x.cover == "" && len(x.res.Fails) > 0 {
-		x.cover = cover // the storage is damaged from here on
-	}
 	x.live, x.committed = cp.content.clone(), cp.content.clone()
 	x.changed = nil
+	x.f2Pend = nil // Rollback clears the queues
 	x.croot, x.cweight = cp.root, cp.weight
 	x.dirty, x.hashedDirty = false, false
 	x.lastPuts = map[string]bool{}
@@ -852,6 +1024,8 @@ func (x *wrun) opMirror(i int, f []string) string {
 				return werr(t.Update(append([]byte(nil), key...), unhx(f[2]), u64(f[3])))
 			case "mupdel":
 				return werr(t.Update(append([]byte(nil), key...), nil, 0))
+			case "mupdel0":
+				return werr(t.Update(append([]byte(nil), key...), make([]byte, 0, 4), 0))
 			default:
 				ch, err := t.Delete(append([]byte(nil), key...))
 				if err != nil {
@@ -871,13 +1045,20 @@ func (x *wrun) opMirror(i int, f []string) string {
 		return rs
 	}
 	rp := apply(x.part)
+	before, had := x.live[string(key)]
 	if f[0] == "mupd" {
 		if rs == "ok" {
-			x.live[string(key)] = went{unhx(f[2]), u64(f[3])}
+			nw := u64(f[3])
+			if had && bytes.Equal(before.val, unhx(f[2])) {
+				nw = before.w
+			}
+			x.live[string(key)] = went{unhx(f[2]), nw}
+			x.f2Change(string(key), before, had)
 			x.muts++
 		}
 	} else if strings.HasPrefix(rs, "ok") {
 		delete(x.live, string(key))
+		x.f2Change(string(key), before, had)
 		x.muts++
 	}
 	x.dirty = true
@@ -886,6 +1067,9 @@ func (x *wrun) opMirror(i int, f []string) string {
 		return guard(func() string { return fmt.Sprintf("%x %d", t.Root(), t.Weight()) })
 	}
 	ss, sp := state(x.t), state(x.part)
+	if rs == "panic" || rp == "panic" {
+		x.fail(i, "the mirrored operation panicked: source %q, imported %q", rs, rp)
+	}
 	if rs != rp {
 		x.fail(i, "the source trie answers %q, the imported trie %q", rs, rp)
 	}
@@ -907,10 +1091,19 @@ func (x *wrun) opMirror(i int, f []string) string {
 // crashEnumeration replays every prefix of the storage-operation stream (batches are atomic) onto an empty store and
 // requires the last durably committed root of that prefix to be fully resolvable with the content it had.
 func (x *wrun) crashEnumeration(i int) {
+	x.crashEnumerationUpTo(i, -1)
+}
+
+// crashEnumerationUpTo: limit >= 0 restricts the enumeration to the first `limit` storage operations and the states made
+// durable within them
+func (x *wrun) crashEnumerationUpTo(i int, limit int) {
 	if i < 0 || len(x.durable) == 0 {
 		return
 	}
 	log := x.newEntries(0)
+	if limit >= 0 && limit < len(log) {
+		log = log[:limit]
+	}
 	for p := 0; p <= len(log); p++ {
 		var d *wdurable
 		for k := range x.durable {
